@@ -4,5 +4,5 @@ From GrolGen Require Import Gen_Consts.
 From GrolModel Require Import Ast Lexer Parser Printer AstWf Frontend Values Cmp Maps SaveLoad.
 Extraction Language OCaml.
 Extraction "saveload_model.ml" save_globals save_one read_back_full read_back_dec read_back func_roundtrip func_text
-  fl_of_bits bits_of_fl dec_conv inspect save_line in_domain no_float good_name fmt_float fmt_int
+  fl_of_bits bits_of_fl dec_conv inspect save_line in_domain no_finite_float good_name reads_back fmt_float fmt_int
   front_parse front_tokens clean node_tok token_INT token_FLOAT plain_decimal.
